@@ -5,6 +5,7 @@ import (
 	"os"
 	"reflect"
 	"strings"
+	"unicode"
 )
 
 type Problem struct {
@@ -155,4 +156,85 @@ func Compare(repo string) (st Stats, problems []Problem) {
 		}
 	}
 	return s.st, s.problems
+}
+
+// RuntimeClass is the run-time content of one character-class matcher (from the overlay accessor).
+type RuntimeClass struct {
+	Val        string
+	Chars      []rune
+	Ranges     []rune
+	Tables     []*unicode.RangeTable
+	IgnoreCase bool
+	Inverted   bool
+}
+
+func (c *RuntimeClass) match(r rune) bool {
+	if c.IgnoreCase {
+		r = unicode.ToLower(r)
+	}
+	in := false
+	for _, x := range c.Chars {
+		if x == r {
+			in = true
+		}
+	}
+	for i := 0; i+1 < len(c.Ranges); i += 2 {
+		if r >= c.Ranges[i] && r <= c.Ranges[i+1] {
+			in = true
+		}
+	}
+	for _, t := range c.Tables {
+		if t != nil && unicode.Is(t, r) {
+			in = true
+		}
+	}
+	return in != c.Inverted
+}
+
+// CompareRuntimeClasses pairs, in pre-order, every character class of grammar.peg with the class matcher that exists in
+// the rule table at RUN TIME and compares membership of every rune.
+func CompareRuntimeClasses(repo string, rt []RuntimeClass) (checks int, problems []Problem) {
+	defer func() {
+		if r := recover(); r != nil {
+			problems = append(problems, Problem{Path: "(reader)", Msg: fmt.Sprint("cannot read grammar.peg: ", r)})
+		}
+	}()
+	src, err := os.ReadFile(repo + "/grammar/grammar.peg")
+	if err != nil {
+		return 0, []Problem{{Path: "(reader)", Msg: err.Error()}}
+	}
+	_, prules := ParsePeg(string(src))
+	type pc struct {
+		path string
+		n    *N
+	}
+	var pcs []pc
+	var walk func(path string, n *N)
+	walk = func(path string, n *N) {
+		if n.Kind == "class" {
+			pcs = append(pcs, pc{path, n})
+		}
+		for i, k := range n.Kids {
+			walk(fmt.Sprintf("%s/%s[%d]", path, n.Kind, i), k)
+		}
+	}
+	for _, r := range prules {
+		walk(r.Name, r.Expr)
+	}
+	if len(pcs) != len(rt) {
+		problems = append(problems, Problem{Path: "(classes)", Msg: fmt.Sprintf("%d character classes in grammar.peg vs %d class matchers in the run-time rule table", len(pcs), len(rt))})
+	}
+	for i := 0; i < len(pcs) && i < len(rt); i++ {
+		bad := 0
+		for r := rune(0); r <= 0x10FFFF; r++ {
+			checks++
+			if pcs[i].n.Class.match(r) != rt[i].match(r) {
+				if bad < 2 {
+					problems = append(problems, Problem{Path: pcs[i].path, Msg: fmt.Sprintf("run-time class matcher %s (table text %q) differs from grammar.peg on %U (grammar.peg matches=%v)", pcs[i].n.Val, rt[i].Val, r, pcs[i].n.Class.match(r))})
+				}
+				bad++
+			}
+		}
+	}
+	return checks, problems
 }
